@@ -145,10 +145,12 @@ impl<const K: usize> AffTree<K> {
         exists|r0: usize, h: Map<usize, nat>| self.a().dom().contains(r0) && *root == self.a()[r0] && ranked_down(self.a(), h) && h[r0] < usize::MAX - 1,
     ensures
         // Some: the labels are a path from `root` to the returned terminal and every label is the one its decision selects for the input
-        r matches Some((node, ls)) ==> node.isleaf && follows(self.a(), *root, input.v(), ls@) == Some(*node),
+        r matches Some((node, ls)) ==> node.isleaf && follows(self.a(), *root, input.v(), ls@) == Some(*node)
+            && exists|i: usize| self.a().dom().contains(i) && *node == #[trigger] self.a()[i],
         // None: following the decisions leads to a decision whose selected branch is missing
         r is None ==> exists|ls: Seq<usize>| (#[trigger] follows(self.a(), *root, input.v(), ls)).is_some()
             && !follows(self.a(), *root, input.v(), ls).unwrap().isleaf
+            && 0 <= decide(&follows(self.a(), *root, input.v(), ls).unwrap().value.aff, input.v()) < K
             && follows(self.a(), *root, input.v(), ls).unwrap().children[decide(&follows(self.a(), *root, input.v(), ls).unwrap().value.aff, input.v())].is_none(),
 //@hint loop 1 before
         let ghost wit = choose|w: (usize, Map<usize, nat>)| self.a().dom().contains(w.0) && *root == self.a()[w.0] && ranked_down(self.a(), w.1) && w.1[w.0] < usize::MAX - 1;
@@ -322,6 +324,32 @@ impl<const K: usize> AffTree<K> {
                 assert(__v@.contains(i));
                 let j = choose|j: int| 0 <= j < __v@.len() && __v@[j] == i;
                 assert(leaf_done(old(self).a(), self.a(), __v@[j], aff_func));
+            }
+        }
+//@end
+}
+
+impl<const K: usize> AffTree<K> {
+//@fn src/pwl/afftree.rs | impl<const K: usize> AffTree<K> | evaluate
+//@bodysub self.find_terminal(self.tree.get_root(), input)            .map(|(func, _)| func.value.aff.apply(input)) => match self.find_terminal(self.tree.get_root(), input) { Some((func, _)) => Some(func.value.aff.apply(input)), None => None }
+//@spec
+    requires self.tree.wf(), self.tree.root is Some, aff_shape_ok(self.a(), self.in_dim), input.v().len() == self.in_dim,
+        exists|h: Map<usize, nat>| ranked_down(self.a(), h) && h[self.tree.root.unwrap()] < usize::MAX - 1,
+    ensures
+        // evaluate(x) is the value of the denoted partial function, undefinedness included
+        forall|h: Map<usize, nat>| ranked_down(self.a(), h) ==>
+            (match #[trigger] tree_fn(self.a(), h, self.tree.root.unwrap(), input.v()) { Some(y) => r is Some && r.unwrap().v() == y, None => r is None }),
+//@hint start
+        broadcast use axiom_array2_shape;
+        proof {
+            let a = self.a(); let r0 = self.tree.root.unwrap(); let x = input.v();
+            let h0 = choose|h: Map<usize, nat>| ranked_down(self.a(), h) && h[self.tree.root.unwrap()] < usize::MAX - 1;
+            assert(self.a().dom().contains(r0) && ranked_down(self.a(), h0) && h0[r0] < usize::MAX - 1);
+            assert forall|h: Map<usize, nat>, ls: Seq<usize>| ranked_down(a, h) && (#[trigger] follows(a, a[r0], x, ls)).is_some() implies
+                (follows(a, a[r0], x, ls).unwrap().isleaf ==> #[trigger] tree_fn(a, h, r0, x) == Some(follows(a, a[r0], x, ls).unwrap().value.aff.ap(x)))
+                && (!follows(a, a[r0], x, ls).unwrap().isleaf && 0 <= decide(&follows(a, a[r0], x, ls).unwrap().value.aff, x) < K
+                    && follows(a, a[r0], x, ls).unwrap().children[decide(&follows(a, a[r0], x, ls).unwrap().value.aff, x)].is_none() ==> tree_fn(a, h, r0, x).is_none()) by {
+                lemma_follows_tree_fn(a, h, r0, x, ls);
             }
         }
 //@end
